@@ -61,6 +61,9 @@ func getProfile(name string, seed int64) *Profile {
 		p.Pads = true
 		p.Colls = 1
 		p.Invalid = 0.05
+	case "longstr": // C01 C08 C10: long strings that are prefixes of one another in an indexed field
+		p.Colls = 1
+		p.Invalid = 0
 	case "expiry": // C15: _expiresAt is data, nothing ever expires - on any backend
 		p.Colls = 1
 		p.TimeTable = "soon"
@@ -175,6 +178,8 @@ func generate(p *Profile, seed int64) ([]E, *Universe) {
 		return g.HistoryRetype(), g.U
 	case p.Name == "expiry":
 		return g.HistoryExpiry(), g.U
+	case p.Name == "longstr":
+		return g.HistoryLongStr(), g.U
 	case p.Name == "algebra":
 		return g.HistoryAlgebra(), g.U
 	case p.Name == "huge":
